@@ -197,6 +197,16 @@ class SymSpec(object):
         the very symbols the code obtains when it makes the same call)"""
         return getattr(symnp, name)(arr, axis=axis, **kw)
 
+    def prod(self, sizes):
+        """the product of extents (remembers its factors: an array of that extent can be split back into them)"""
+        return symnp.prod(list(sizes))
+
+    def rowmajor(self, idx, sizes):
+        """position of the coordinate idx in the row-major (C order) merge of dimensions of extents `sizes`"""
+        if len(idx) == 1:
+            return idx[0]
+        return symnp.mkint(symnp.rowmajor([symnp.zint(i) for i in idx], list(sizes)))
+
     def sort_rank(self, arr):
         """rank[p] = position of element p in NumPy's argsort order (the inverse permutation of np.argsort)"""
         return symnp.argsort(arr).buf.tags["inverse"]
